@@ -276,7 +276,9 @@ def ddmin(items, still_fails, budget_s=15.0):
     def ok(c):
         try:
             return bool(still_fails(c))
-        except Exception:  # noqa: BLE001
+        except Exception as e:  # noqa: BLE001
+            if type(e).__name__ == "_OutOfTime":
+                raise
             return False
     n = 2
     while len(items) >= 2 and time.time() - t0 < budget_s:
@@ -302,15 +304,28 @@ def shrink_failure(mod, failure, budget_s=20.0):
     input; the original is kept by the caller."""
     if not hasattr(mod, "shrink"):
         return None
+    import time
     what = failure["what"]
+    t0 = time.time()
+
+    class _OutOfTime(Exception):
+        pass
 
     def fails(inp2):
+        # a hard wall-clock limit on the whole minimisation, whatever the harness's own shrinker does
+        if time.time() - t0 > 2.5 * budget_s:
+            raise _OutOfTime()
         ok, msg = mod.replay({"input": inp2})
         return (not ok) and str(msg) == str(what)
     try:
+        t1 = time.time()
         if not fails(failure["input"]):
             return None          # the replay does not reproduce this verdict from the content: nothing to shrink
+        if time.time() - t1 > budget_s / 8:
+            return None          # one replay of this input is too slow to minimise it within the budget
         small = mod.shrink(failure["input"], fails, budget_s)
         return small if small is not None and fails(small) else None
+    except _OutOfTime:
+        return None
     except Exception:  # noqa: BLE001
         return None
